@@ -111,6 +111,17 @@ def deep_programs():
         out.append((".equ s = 2*3\n ldi r16, %ss%s\n" % ("low(1+" * n, ")" * n), None))
         out.append((".set s = 2*3\n .dw s%s\n" % (" * 1" * n), 6))
         out.append(("lbl: nop\n.equ s = lbl + 6\n .dw s%s\n" % (" - 0" * n), None))
+    # a negated NAME that begins with the letter of an index register (x, y, z) as the operand of an instruction: the expression,
+    # not the pre-decrement form of the register followed by rubbish
+    for name in ("xv", "yval", "zed", "Xs", "Y2", "z_", "x1", "YY", "zx", "y"):
+        if len(name) > 1:
+            out.append((".equ %s = 3\n ldi r16, -%s\n" % (name, name), 0xEF0D))
+            out.append((".equ %s = 3\n ldi r16, -%s+4\n" % (name, name.upper()), 0xE001))
+            out.append((".equ %s = 3\n ldi r16, -%s  ; c\n" % (name, name), 0xEF0D))
+            out.append((".equ %s = 3\n ldi r16, ~%s\n" % (name, name), 0xEF0C))
+            out.append((".equ %s = 3\n cpi r16, -%s\n" % (name, name), 0x3F0D))
+            out.append(("%s: nop\n ldi r16, -%s + 2\n" % (name, name), 0xE002))
+        out.append((" ld r16, -%s\n" % name[0], {"x": 0x910E, "y": 0x910A, "z": 0x9102}[name[0].lower()]))
     for n in (1, 5, 20, 31, 32, 33, 50, 60, 62, 63, 64, 65, 70):
         defs = [".equ o0 = 1*1"] + [".equ o%d = o%d + 2" % (i, i - 1) for i in range(1, n + 1)]
         out.append(("\n".join(defs) + "\n .dw o%d\n" % n, (1 + 2 * n) if n <= 60 else None))
